@@ -253,7 +253,9 @@ EstabEv ==
                !.hdrSeid = (Answered(e) => (m.seid = "zero" \/ m.seid = req.cp)),
                !.writesNothing = (Answered(e) /\ EstabNoAssoc(p, req) => e.cmds = cmds),
                !.ipRefusal = TRUE]
-  /\ last' = [ev |-> "req", kind |-> "estab", accepted |-> acc, u |-> IF acc THEN u ELSE "-"]
+  \* establishments sent concurrently are recorded one after the other with the tables as they were after the
+  \* whole burst; the image is judged at the last line of the burst only (it carries burst = FALSE)
+  /\ last' = [ev |-> "req", kind |-> IF "burst" \in DOMAIN e /\ e.burst THEN "estab-burst" ELSE "estab", accepted |-> acc, u |-> IF acc THEN u ELSE "-"]
   /\ Advance
 
 ModEv ==
@@ -414,6 +416,13 @@ C05_GaugeCountsLiveSessions == (C05_Applies /\ snap.has) => snap.gauge = Cardina
 C06_AddressInPoolAndExclusive == chk.ipLegal
 C07_SeidFreshPerAssociation == chk.seidLegal
 C07_TeidNonZeroAndUnique == chk.teidLegal
+
+\* the F-SEID and F-TEIDs reported in the response are the values programmed: the session's pdrLookup entries carry
+\* its UP SEID token and, for CHOOSE PDRs, the TEID of the Created PDR
+C07_ReportedEqualsProgrammed ==
+  (last.ev = "req" /\ last.kind = "estab" /\ last.accepted) =>
+     \/ \E sq \in SessQerChoices(sess[last.u]) : PdrImageOK(tables.pdr, last.u, sess[last.u], sq)
+     \/ last.u \in Relaxed /\ PdrImageRelabelOK(tables.pdr, last.u, sess[last.u])
 
 \* C09 (BESS): QER values as signalled, session-level QER chosen soundly
 QosCfg == [q \in {cfg.qos[i].qfi : i \in 1..Len(cfg.qos)} |-> cfg.qos[CHOOSE i \in 1..Len(cfg.qos) : cfg.qos[i].qfi = q]]
